@@ -47,7 +47,7 @@ import (
 func main() { wk.Main("C17", run) }
 
 func run(c *wk.Ctx) {
-	n := c.Pick(640, 6400)
+	n := c.Pick(1280, 9600)
 	if c.Race {
 		n = c.Pick(160, 1600)
 	}
